@@ -109,10 +109,12 @@ PLAN = {
         "quick": [
             {"run": "TestC09_Notebook", "checks": 12, "cores": 8},
             {"run": "TestC09_History", "checks": 6, "cores": 8},
+            {"run": "TestC09_CrashPoints", "checks": 30, "cores": 8},
         ],
         "thorough": [
             {"run": "TestC09_Notebook", "checks": 1000, "shards": 4, "cores": 4, "timeout": 7200},
             {"run": "TestC09_History", "checks": 500, "shards": 4, "cores": 4, "timeout": 7200},
+            {"run": "TestC09_CrashPoints", "checks": 400, "shards": 4, "cores": 4, "timeout": 7200},
         ],
     },
     "C10": {
@@ -245,7 +247,7 @@ PLAN = {
         "wtf": True,
         "quick": [
             {"run": "TestC20_Engine", "checks": 6000},
-            {"run": "TestC20_CLI", "checks": 60},
+            {"run": "TestC20_CLI", "checks": 200},
         ],
         "thorough": [
             {"run": "TestC20_Engine", "checks": 900000, "shards": 14, "timeout": 7200},
